@@ -25,8 +25,14 @@ def run(ctx):
     ctx.used(f)
     # the id variable: first element unpacked from the header
     idv = None
+    hdr = None
+    cli = None
     for st in walk_local(f.node):
-        if isinstance(st, ast.Assign) and isinstance(st.targets[0], ast.Tuple) and len(st.targets[0].elts) == 2 and is_name(st.value, 'header'):
+        if cli is None and isinstance(st, ast.Assign) and isinstance(st.value, ast.Call) and last_attr(st.value) == 'accept' and isinstance(st.targets[0], ast.Tuple):
+            cli = st.targets[0].elts[0].id
+        if hdr is None and isinstance(st, ast.Assign) and isinstance(st.targets[0], ast.Name) and isinstance(st.value, ast.Call) and last_attr(st.value) == 'recv_msg':
+            hdr = st.targets[0].id
+        if isinstance(st, ast.Assign) and isinstance(st.targets[0], ast.Tuple) and len(st.targets[0].elts) == 2 and hdr and is_name(st.value, hdr):
             idv = st.targets[0].elts[0].id
     ctx.require(idv is not None, 'RemoteServer.run: header unpacking not found')
     # ---------------------------------------------------------------- R1 accesses keyed by the client id
@@ -151,7 +157,7 @@ def run(ctx):
     ctx.check('R2', 'a worker created in a context ships no payload of its own', ok, 'RemoteWorker.__getstate__', 'payload-with-context', 'payload handling for context workers changed', where=loc(gs, gs.node))
     # the server hands the client socket to the context helper
     hand = [c for c in calls_in(f.node) if last_attr(c) == 'call' and receiver(c) == 'ctx']
-    ok = len(hand) == 1 and len(hand[0].args) == 1 and is_name(hand[0].args[0], 'cli')
+    ok = len(hand) == 1 and len(hand[0].args) == 1 and is_name(hand[0].args[0], cli)
     ctx.check('R2', 'the server hands the client socket to the context of that id', ok, 'RemoteServer.run', 'context-call', 'a worker-in-context request is not handed to the context helper', where=loc(f, f.node))
     look = [st for st in walk_local(f.node) if isinstance(st, ast.Assign) and is_name(st.targets[0], 'ctx') and isinstance(st.value, ast.Call) and last_attr(st.value) == 'get'
             and st.value.args and is_name(st.value.args[0], idv)]
